@@ -1,7 +1,69 @@
-(** C21 -- the TL1 printer round-trips through the parser. *)
-From TLV Require Import Canon.CanonModel Canon.CanonProofs.
+(** C21 -- the TL1 schema printer round-trips through the parser.
+
+    Full statement (not proved here: the lexer/parser model belongs to another family):
+      for every a in the image of parse1:  parse1 (lex (print_tl a)) = Ok a'  /\  erase a' = erase a
+    where [erase] drops positions and comments; in this development the Gallina AST *is* the erased AST (the
+    harness dump keeps every other field), and the full statement is checked on the Go side by the correspondence
+    run of lib/checks/C21.py (ParseTLFile -> TL.String() -> ParseTLFile, AST dumps compared).
+    Proved ([_partial]): for the expression sub-grammar the printed text determines the AST -- a verified parser
+    inverts TypeRef.String on every well-formed type reference (nested applications, bare markers, arithmetic,
+    namespaces, '#'), hence the printer is injective there; likewise names, numbers and arithmetic.
+    Refuted: the statement itself, for combinators with an explicit zero tag (F5). *)
+From TLV Require Import Canon.CanonModel Canon.CanonProofs Canon.CanonParse.
 Open Scope N_scope.
 
-Theorem C21_placeholder : forall c, c_explicit c = true -> tag c = c_id c.
-Proof. exact tag_explicit_verbatim. Qed.
-Print Assumptions C21_placeholder.
+Theorem C21_parse_print_typeref_partial : forall t, wf_tr t = true ->
+  exists k, forall fuel r, (k <= fuel)%nat -> tstop r -> parse_tr fuel (print_tr t ++ r) = Some (t, r).
+Proof. exact parse_print_tr. Qed.
+Print Assumptions C21_parse_print_typeref_partial.
+
+Theorem C21_print_typeref_injective : forall t1 t2,
+  wf_tr t1 = true -> wf_tr t2 = true -> print_tr t1 = print_tr t2 -> t1 = t2.
+Proof. exact print_tr_inj. Qed.
+Print Assumptions C21_print_typeref_injective.
+
+Theorem C21_parse_print_name : forall n r, wf_name n = true -> nstop r -> parse_name (print_name n ++ r) = Some (n, r).
+Proof. exact parse_name_ok. Qed.
+Print Assumptions C21_parse_print_name.
+
+Theorem C21_print_name_injective : forall n1 n2,
+  wf_name n1 = true -> wf_name n2 = true -> print_name n1 = print_name n2 -> n1 = n2.
+Proof. exact print_name_inj. Qed.
+Print Assumptions C21_print_name_injective.
+
+Theorem C21_print_arith_injective : forall l1 l2, l1 <> [] -> l2 <> [] -> print_nums l1 = print_nums l2 -> l1 = l2.
+Proof. exact print_nums_inj. Qed.
+Print Assumptions C21_print_arith_injective.
+
+Theorem C21_decimal_value : forall n, dec n <> [] /\ forallb is_digit (dec n) = true /\ dval (dec n) = n.
+Proof. exact dec_spec. Qed.
+Print Assumptions C21_decimal_value.
+
+Theorem C21_tag_hex_value : forall n, n < 4294967296 -> hexval (hex8 n) = n.
+Proof. exact hex8_value. Qed.
+Print Assumptions C21_tag_hex_value.
+
+(** the printed combinator is a single line of printable structure: no double spaces etc. are claimed only for
+    the canonical form (C23); here: the refutation of the round trip *)
+Theorem C21_print1_refuted_zero_tag :
+  exists c1 c2, wf_comb c1 = true /\ wf_comb c2 = true /\ c_explicit c1 = true /\ c_id c1 = 0 /\
+    c_explicit c2 = false /\ print1 c1 = print1 c2 /\ tag c1 = 0 /\ tag c2 = 135614071 /\ c1 <> c2.
+Proof. exact print1_refuted_zero_tag. Qed.
+Print Assumptions C21_print1_refuted_zero_tag.
+
+(* non-vacuity: a nested type expression with every construct, printed and parsed back *)
+Definition ex_tr : typeref :=
+  TypeRef (Name [97] [86; 101; 99]) (* a.Vec *)
+    [Aot false (Arith [] 0) (TypeRef (Name [] [116; 117; 112]) [Aot false (Arith [] 0) w_int; Aot true (Arith [2; 3] 5) w_empty_tr] true);
+     Aot true (Arith [7] 7) w_empty_tr; Aot false (Arith [] 0) w_nat] true.
+Example ex_tr_wf : wf_tr ex_tr = true.
+Proof. vm_compute. reflexivity. Qed.
+(* %(a.Vec %(tup int 2 + 3) 7 #) *)
+Example ex_tr_text : print_tr ex_tr =
+  [37; 40; 97; 46; 86; 101; 99; 32; 37; 40; 116; 117; 112; 32; 105; 110; 116; 32; 50; 32; 43; 32; 51; 41; 32; 55; 32; 35; 41].
+Proof. vm_compute. reflexivity. Qed.
+Example ex_tr_roundtrip : parse_tr 10 (print_tr ex_tr ++ [32; 120]) = Some (ex_tr, [32; 120]).
+Proof. vm_compute. reflexivity. Qed.
+(* foo = Foo; *)
+Example ex_print1_zero_tag : print1 (w_foo [] 0 true) = [102; 111; 111; 32; 61; 32; 70; 111; 111; 59].
+Proof. vm_compute. reflexivity. Qed.
